@@ -515,7 +515,15 @@ fn compile_required_signers(tx: &tir::Tx) -> Result<Option<primitives::RequiredS
         .map(coercion::expr_into_address_keyhash)
         .collect::<Result<Vec<_>, _>>()?;
 
-    Ok(primitives::RequiredSigners::from_vec(hashes))
+    // required signers are a set: the same key hash written twice counts once
+    let mut unique = Vec::with_capacity(hashes.len());
+    for hash in hashes {
+        if !unique.contains(&hash) {
+            unique.push(hash);
+        }
+    }
+
+    Ok(primitives::RequiredSigners::from_vec(unique))
 }
 
 fn compile_validity(validity: Option<&tir::Validity>) -> Result<(Option<u64>, Option<u64>), Error> {
